@@ -322,13 +322,28 @@ Proof. exact step_frame. Qed.
 Print Assumptions C17_step_frame.
 
 Theorem C17_client_untouched_by_requests : forall s o,
-  (forall f, o <> SClientAdd f) -> ss_client (fst (sstep s o)) = ss_client s.
+  (forall c f, o <> SClientAdd c f) -> (forall c, o <> SClone c) ->
+  ss_client (fst (sstep s o)) = ss_client s.
 Proof. exact client_untouched_by_requests. Qed.
 Print Assumptions C17_client_untouched_by_requests.
 
+(* Client.Clone: the clone starts with the original's form data as they are at that moment; from
+   then on what is added to one of the two is not seen by the other (nor by any other client) *)
+Theorem C17_clone_copies : forall s c,
+  nth (length (ss_client s)) (ss_client (fst (sstep s (SClone c)))) [] = nth c (ss_client s) [] /\
+  forall d, d < length (ss_client s) ->
+    nth d (ss_client (fst (sstep s (SClone c)))) [] = nth d (ss_client s) [].
+Proof. exact clone_copies. Qed.
+Print Assumptions C17_clone_copies.
+
+Theorem C17_client_add_frame : forall s c d f,
+  c <> d -> nth d (ss_client (fst (sstep s (SClientAdd c f)))) [] = nth d (ss_client s) [].
+Proof. exact client_add_frame. Qed.
+Print Assumptions C17_client_add_frame.
+
 (* every attempt marshals the payload as it is at that moment *)
 Theorem C17_attempts_marshal_fresh : forall s i v r,
-  r = prepare (ss_client s) (ss_cell s) (nth i (ss_reqs s) sreq0) ->
+  r = prepare (client_of s i) (ss_cell s) (nth i (ss_reqs s) sreq0) ->
   form_plan_of (sr_form r) [] (sr_ordered r) = FNone -> sr_body r = true ->
   snd (sstep s (SSendRetry i v)) = [OutMarshal i (ss_cell s); OutMarshal i v] /\
   snd (sstep s (SSend i)) = [OutMarshal i (ss_cell s)].
